@@ -1045,3 +1045,123 @@ Lemma entry_list_on_the_rule_slice_refuted :
   logged_of (eworld_run entries_fresh ew_sched ew_demo) 1 = [0; 1; 2; 3]%nat /\
   logged_of (eworld_run entries_fresh ew_sched ew_demo) 2 = [0; 1; 2; 4]%nat.
 Proof. vm_compute. repeat split; reflexivity. Qed.
+
+(* ------------------------------------------------------------------------------------------ *)
+(* E. the scan as a decomposition of the format string (deepening, round 6)                      *)
+(* ------------------------------------------------------------------------------------------ *)
+Lemma firstn_S_last {A} (l : list A) : forall n x, nth_error l n = Some x -> firstn (S n) l = firstn n l ++ [x].
+Proof.
+  induction l as [|a l IH]; intros [|n] x H; try discriminate.
+  - simpl in H. injection H as ->. reflexivity.
+  - simpl in H. change (a :: firstn (S n) l = a :: (firstn n l ++ [x])). f_equal. exact (IH n x H).
+Qed.
+
+Lemma skipn_add {A} : forall y (l : list A) x, skipn x (skipn y l) = skipn (y + x) l.
+Proof.
+  induction y as [|y IH]; intros l x; [reflexivity|].
+  destruct l as [|a l]; [simpl; apply skipn_nil|]. simpl. apply IH.
+Qed.
+
+(* one round of the outer loop splits the unscanned text into (raw prefix) ++ (raw placeholder)
+   ++ rest, the placeholder being "{" ... "}"; the prefix goes to the output unescaped (minus the
+   TrimPrefix quirk), the placeholder unescaped to getSubstitution, and ONLY [rest] is scanned again *)
+Lemma scan_step_decomp s pre key rest :
+  scan_step s = Ok (Some (pre, key, rest)) ->
+  exists a m, s = a ++ (LB :: m ++ [RB]) ++ rest /\
+              pre = trim_prefix_bsl (unescape_braces a) /\ key = unescape_braces (LB :: m ++ [RB]).
+Proof.
+  unfold scan_step.
+  destruct (find_unescaped_ok (S (length s)) LB s 0%nat) as [st [Est Hst]]; [discriminate|lia|lia|].
+  rewrite Est. cbn [rbind].
+  destruct st as [i0|]; [|discriminate].
+  destruct (Hst i0 eq_refl) as [[_ Hi0] [Hn0 _]].
+  ok_from s i0. set (sp := skipn i0 s).
+  assert (Hsp : length sp = (length s - i0)%nat) by apply skipn_length.
+  destruct (find_unescaped_ok (S (length sp)) RB sp 0%nat) as [en [Een Hen]]; [discriminate|lia|lia|].
+  rewrite Een. cbn [rbind].
+  destruct en as [e|]; [|discriminate].
+  destruct (Hen e eq_refl) as [[_ He] [Hne _]].
+  assert (H0 : nth_error sp 0 = Some LB) by (unfold sp; rewrite nth_error_skipn, Nat.add_0_r; exact Hn0).
+  assert (He0 : e <> 0%nat) by (intros ->; rewrite H0 in Hne; discriminate).
+  ok_slice s i0 (i0 + e + 1)%nat. ok_slice s 0%nat i0. ok_from s (i0 + e + 1)%nat.
+  intro H. injection H as <- <- <-.
+  replace (i0 + e + 1 - i0)%nat with (S e) by lia. fold sp.
+  rewrite Nat.sub_0_r. change (skipn 0 s) with s.
+  destruct sp as [|c sp'] eqn:Esp; [discriminate|]. simpl in H0. injection H0 as ->.
+  destruct e as [|e']; [congruence|]. simpl in Hne.
+  exists (firstn i0 s), (firstn e' sp'). split; [|split; [reflexivity|]].
+  - rewrite <- (firstn_S_last sp' e' RB Hne).
+    change (LB :: firstn (S e') sp') with (firstn (S (S e')) (LB :: sp')).
+    replace (skipn (i0 + S e' + 1) s) with (skipn (S (S e')) (LB :: sp')).
+    + rewrite firstn_skipn. rewrite <- Esp. unfold sp. symmetry. apply firstn_skipn.
+    + rewrite <- Esp. unfold sp. rewrite skipn_add. f_equal. lia.
+  - change (firstn (S (S e')) (LB :: sp')) with (LB :: firstn (S e') sp').
+    rewrite (firstn_S_last sp' e' RB Hne). reflexivity.
+Qed.
+
+(* the pieces of a format: (raw literal, raw placeholder) pairs followed by a raw tail *)
+Definition pieces_cat (ps : list (bytes * bytes)) : bytes := concat (map (fun p => fst p ++ snd p) ps).
+Definition pieces_template (ps : list (bytes * bytes)) (tail : bytes) : list seg :=
+  flat_map (fun p => [Lit (trim_prefix_bsl (unescape_braces (fst p))); Ph (unescape_braces (snd p))]) ps
+  ++ [Lit (unescape_braces tail)].
+Definition pieces_out (gs : bytes -> bytes) (ps : list (bytes * bytes)) (tail : bytes) : bytes :=
+  concat (map (fun p => trim_prefix_bsl (unescape_braces (fst p)) ++ gs (unescape_braces (snd p))) ps)
+  ++ unescape_braces tail.
+Definition braced (p : bytes) : Prop := exists m, p = LB :: m ++ [RB].
+
+Lemma template_loop_decomp fuel : forall s, (length s < fuel)%nat ->
+  exists ps tail, s = pieces_cat ps ++ tail /\ Forall (fun p => braced (snd p)) ps /\
+                  scan_step tail = Ok None /\
+                  template_loop fuel s = Ok (pieces_template ps tail).
+Proof.
+  induction fuel as [|fuel IH]; intros s Hf; [lia|]. cbn [template_loop].
+  destruct (scan_step_ok s) as [st [Est Hst]]. rewrite Est. cbn [rbind].
+  destruct st as [[[pre key] rest]|].
+  - destruct (Hst pre key rest eq_refl) as [Hlen _].
+    destruct (scan_step_decomp s pre key rest Est) as [a [m [Es [Epre Ekey]]]].
+    destruct (IH rest) as [ps [tail [Er [Hb [Htail Et]]]]]; [lia|]. rewrite Et. cbn [rbind].
+    exists ((a, LB :: m ++ [RB]) :: ps), tail. repeat split.
+    + unfold pieces_cat. cbn [map concat fst snd]. fold (pieces_cat ps).
+      rewrite Es at 1. rewrite Er at 1. repeat (rewrite <- ?app_assoc; cbn [app]). reflexivity.
+    + constructor; [exists m; reflexivity|exact Hb].
+    + exact Htail.
+    + unfold pieces_template. cbn [flat_map fst snd app]. rewrite <- Epre, <- Ekey. reflexivity.
+  - exists [], s. repeat split; auto.
+Qed.
+
+Lemma pieces_render gs ps tail : render gs (pieces_template ps tail) = pieces_out gs ps tail.
+Proof.
+  unfold pieces_template, pieces_out. rewrite render_app. f_equal.
+  - induction ps as [|p ps IH]; [reflexivity|].
+    cbn [flat_map map concat]. rewrite render_app, IH. unfold render. simpl.
+    rewrite app_nil_r, <- app_assoc. reflexivity.
+  - unfold render. simpl. apply app_nil_r.
+Qed.
+
+(* THE theorem about Replace over all strings: every format is, uniquely from left to right,
+   literal_1 placeholder_1 ... literal_n placeholder_n tail; the output is the concatenation, in
+   that order, of each literal with its brace escapes removed and of the VALUE of each
+   placeholder, each looked up exactly once and inserted as it is (gs is arbitrary: a value that
+   begins with a backslash, contains braces, escapes or whole placeholders is not trimmed,
+   unescaped or scanned), followed by the unescaped tail, in which no complete unescaped
+   placeholder is left.  Literals may be empty (adjacent placeholders, a placeholder at
+   position 0). *)
+Lemma replace_scan_decomposition gs fmt :
+  exists ps tail,
+    fmt = pieces_cat ps ++ tail /\ Forall (fun p => braced (snd p)) ps /\
+    (has_brace fmt = true -> scan_step tail = Ok None) /\
+    template fmt = Ok (pieces_template ps tail) /\
+    expand gs fmt = Ok (pieces_out gs ps tail).
+Proof.
+  destruct (has_brace fmt) eqn:Eb.
+  - destruct (template_loop_decomp (S (length fmt)) fmt) as [ps [tail [Es [Hb [Ht Et]]]]]; [lia|].
+    exists ps, tail. repeat split; auto.
+    + unfold template. rewrite Eb. exact Et.
+    + rewrite expand_factorises. unfold template. rewrite Eb. cbn [negb]. rewrite Et.
+      rewrite pieces_render. reflexivity.
+  - exists [], fmt. repeat split; auto; try discriminate.
+    + unfold template. rewrite Eb. cbn [negb]. unfold pieces_template. cbn [flat_map app].
+      rewrite (unescape_no_brace fmt Eb). reflexivity.
+    + unfold expand. rewrite Eb. cbn [negb]. unfold pieces_out. cbn [map concat app].
+      rewrite (unescape_no_brace fmt Eb). reflexivity.
+Qed.
